@@ -199,6 +199,27 @@ def fit_choice_tie(ctx: Ctx, drv: Driver, m: Monitor):
             ctx.disagree(c["caller"] + " (choice of the three fit atoms)", {"residue": str(c["residue"]), "atom": c["name"], "present": c["present"]}, got, want)
 
 
+def gap_pointer_kind(c, t):
+    """was the pointer behind template atom `t` set untested (this residue's own atom of that peptide bond was missing when
+    update_bonds ran: it is the atom being built, or was itself rebuilt), or should update_bonds have cleared it?"""
+    res = c["residue"]
+    own = "C" if t == "N+1" else "N"
+    missing = c["name"] == own or not res.has_atom(own) or bool(getattr(res.get_atom(own), "added", False))
+    return "untested(partner atom missing)" if missing else "should-have-been-cleared"
+
+
+def link_tie(ctx: Ctx, drv: Driver, m: Monitor):
+    """the neighbour pointers update_bonds set for every consecutive pair of amino-acid residues vs the model's peptideLink"""
+    recs = getattr(m, "links", [])
+    ans = drv.ask([f"repairfit.link\t{int(t['hasC'])}\t{int(t['hasN'])}\t{int(t['far'])}" for t in recs])
+    for t, a in zip(recs, ans):
+        ctx.evaluations += 1
+        ctx.count("peptide-link", ("both atoms" if t["hasC"] and t["hasN"] else "C missing" if t["hasN"] else "N missing" if t["hasC"] else "both missing") + (", far apart" if t["far"] else ""))
+        real = f"{int(t['pn'])}{int(t['pc'])}"
+        if a != real:
+            ctx.disagree("Biomolecule.update_bonds (neighbour pointers)", {"pair": t["pair"], "hasC": t["hasC"], "hasN": t["hasN"], "far": t["far"]}, a, real)
+
+
 def third_checks(ctx: Ctx, drv: Driver, m: Monitor):
     """rebuild_tetrahedral with two hydrogens present: the position taken vs the model's thirdHydrogen (Float), and
     the theorem third_hydrogen_clear instantiated: one side from the first hydrogen, at least half a side from the second"""
@@ -253,6 +274,12 @@ def final_checks(ctx: Ctx, m: Monitor, bio):
                 continue
             want = ("next", "N") if t == "N+1" else ("prev", "C") if t == "C-1" else ("own", t)
             ctx.count("fit-point-pairing", "own" if want[0] == "own" else t)
+            if (where, an) == want and want[0] in ((c.get("fit") or {}).get("gaps") or []):
+                # known finding: the neighbour the template atom stands for is not bonded to this residue (chain gap),
+                # yet its atom serves as a fit point (update_bonds sets the pointer untested when the partner atom of
+                # the peptide bond is missing: theorem peptide_link_untested_refuted)
+                out.append(({"kind": "fit-across-a-chain-gap", "template": t, "pointer": gap_pointer_kind(c, t)}, f"{c['residue']} {c['name']} ({c['caller']}): fitted on {an} of the {where} residue although there is a gap in the chain between the two (CA-CA > 4.5 A)"))
+                break
             if (where, an) != want:
                 out.append(({"kind": "fit-on-wrong-atom", "caller": c["caller"], "template": t if t in ("N+1", "C-1") else "own"}, f"{c['residue']} {c['name']} ({c['caller']}): the fit point for template atom {t} is {an} of the {where} residue, expected {want[1]} of the {want[0]} residue"))
                 break
@@ -387,6 +414,25 @@ def final_checks(ctx: Ctx, m: Monitor, bio):
         # lengths and angles. Kernel-checked scope: Props/C05 truncated_rebuild_fits_local (never for truncated side
         # chains, the carbonyl O or leaves), single_missing_middle_atom_refuted (always for a mid-chain amide N, for
         # CG of lysine ...). Identified by: the atom at fault is such a rebuilt atom or within two template bonds of one.
+        across_gap = []
+        for a in res.atoms:
+            c_a = last.get(id(a))
+            if a.added and c_a is not None and c_a.get("pairing") and a.name in ref.map:
+                gaps_a = (c_a.get("fit") or {}).get("gaps") or []
+                if any(w in gaps_a and t in ("N+1", "C-1") and gap_pointer_kind(c_a, t).startswith("untested") for t, w, _n in c_a["pairing"]):
+                    across_gap.append(a.name)
+        if across_gap:
+            near = set()
+            for x in across_gap:
+                near.add(x)
+                for u in ref.map[x].bonds:
+                    near.add(u)
+                    if u in ref.map:
+                        near.update(ref.map[u].bonds)
+            for k in range(out_start, len(out)):
+                sg, msg = out[k]
+                if sg.get("atom") in near and sg.get("kind") in ("bond", "angle", "tetrahedral-angle", "coincident"):
+                    out[k] = ({"kind": "fit-across-a-chain-gap", "template": "consequence", "pointer": "untested(partner atom missing)"}, msg)
         spanning = []
         for a in res.atoms:
             c_a = last.get(id(a))
@@ -421,6 +467,7 @@ def check_case(ctx: Ctx, drv: Driver, text, opts, feats, seen_sig):
     if r.status != "ok":
         return
     fit_choice_tie(ctx, drv, m)
+    link_tie(ctx, drv, m)
     found = fit_checks(ctx, drv, m) + tetra_checks(ctx, drv, m) + third_checks(ctx, drv, m) + torsion_checks(ctx, m) + final_checks(ctx, m, r.biomolecule)
     ctx.count("oracle", "holds" if not found else found[0][0]["kind"])
     for sig, msg in found:
